@@ -34,6 +34,7 @@ Proof.
   - eapply pres_cwf; eauto.
   - eapply pres_safe; eauto.
   - eapply pres_late; eauto.
+  - eapply pres_late_b; eauto.
 Qed.
 
 Theorem Inv_run : forall L sched, Inv (run step (init L) sched).
@@ -48,6 +49,7 @@ Definition early_sid (p : wpc) : option (nat * bool) :=
   match p with
   | WSvc0 k lt => Some (k, lt)
   | WSvc1 k lt _ => Some (k, lt)
+  | WSvc1b k lt _ => Some (k, lt)
   | _ => None
   end.
 
@@ -93,7 +95,7 @@ Proof.
   intros s m c s' l I T H. destruct T as [TD TO TN TS TF TL].
   destruct c as [e|w e|]; simpl in H.
   - io_cases H; unfold mrun; unf; simpl; orbs; constructor; simpl; auto; rewrite TD; reflexivity.
-  - pose proof (i_late s I w) as LT.
+  - pose proof (i_late_b s I w) as LT.
     pose proof (mem_fresh_false _ _ TF) as FR. pose proof (mem_fresh_false _ _ TL) as FRL.
     pose proof (TN w) as TNw. pose proof (TS w) as TSw.
     wk_cases H; unfold mrun; unf; simpl; orbs; rewrite ?Heqw0 in *; simpl in *.
@@ -120,7 +122,11 @@ Proof.
       constructor; simpl; auto.
       * intros w1 k1. destruct (Nat.eqb_spec w1 w); simpl; [subst w1; apply TNw | apply TN].
       * intros w1 k1 lt1. destruct (Nat.eqb_spec w1 w); simpl; [subst w1; apply TSw | apply TS].
-    + (* WSvc1, connected, a valid request: the application is called *)
+    + (* WSvc1 -> WSvc1b: same invocation *)
+      constructor; simpl; auto.
+      * intros w1 k1. destruct (Nat.eqb_spec w1 w); simpl; [subst w1; apply TNw | apply TN].
+      * intros w1 k1 lt1. destruct (Nat.eqb_spec w1 w); simpl; [subst w1; apply TSw | apply TS].
+    + (* WSvc1b, will_close not set, a valid request: the application is called *)
       assert (late = false) by (destruct late; auto; simpl in LT; specialize (LT eq_refl); congruence).
       subst late.
       constructor; simpl; auto.
